@@ -54,6 +54,23 @@ pub fn run(o: &Opts, deck: &str) -> String {
         }
     }
     out.line(&format!("dealtsummary {} | {}", nd, bad));
+    // the next hand on the same table: dealt from a full deck again (a card of the previous hand comes back with
+    // probability 1 - C(48,4)/C(52,4))
+    let nr = if o.thorough() { 40_000 } else { 6_000 };
+    let r = catch(|| {
+        let mut g = Game::root();
+        let mut overlaps = 0u64;
+        let mut seen = 0u64;
+        for _ in 0..nr {
+            let before = g.verif_seats().iter().fold(0u64, |a, s| a | u64::from(Hand::from(s.cards())));
+            g = g.deal();
+            let after = g.verif_seats().iter().fold(0u64, |a, s| a | u64::from(Hand::from(s.cards())));
+            if before & after != 0 { overlaps += 1; }
+            seen |= after;
+        }
+        format!("{} {}", overlaps, seen.count_ones())
+    });
+    out.line(&format!("redeal {} | {}", nr, r.unwrap_or("P P".into())));
     let lines = out.finish();
     format!("{{\"lines\":{},\"draws\":{},\"dealt_hands\":{}}}", lines, total, nd)
 }
